@@ -24,16 +24,17 @@ CFGS = {"quick": ["q_t1", "q_t2", "q_t3", "q_t4"], "thorough": ["q_t1", "q_t2", 
 DT = 0.25
 
 
+# one callable OBJECT per clause kind: a kind that appears twice in a registration sequence is the same object under two names
+_CLAUSES = {
+    "add1": lambda d, p: p + 1,
+    "scale2": lambda d, p: p * 2,
+    "cap1": lambda d, p: p.clamp(max=1.0),
+    "knock4": lambda d, p: torch.where(d.ul().spot.max(-1).values >= 4, torch.zeros_like(p), p),
+}
+
+
 def clause_fn(name: str):
-    if name == "add1":
-        return lambda d, p: p + 1
-    if name == "scale2":
-        return lambda d, p: p * 2
-    if name == "cap1":
-        return lambda d, p: p.clamp(max=1.0)
-    if name == "knock4":
-        return lambda d, p: torch.where(d.ul().spot.max(-1).values >= 4, torch.zeros_like(p), p)
-    raise KeyError(name)
+    return _CLAUSES[name]
 
 
 def expected(r: Dict[str, Any], key: str, T: int) -> float:
@@ -127,6 +128,24 @@ def replay(ctx: Ctx, recs: List[Dict[str, Any]]) -> None:
                     ctx.violation("payoff:clause-registry", f"named_clauses() order {names} differs from registration order {[c[0] for c in r0['registered']]}", {"ops": ops})
             if not torch.equal(stock.spot, keep):
                 ctx.violation(f"payoff:{kind}:class-mutates", "payoff() modified the underlier's spot buffer", {})
+            # a maturity that is NOT a multiple of dt: the simulated grid has the same ceil(M/dt)+1 points, and the contract
+            # is still written on the terminal price
+            if T >= 2:
+                kw_off = dict(kw, maturity=(T - 1) * DT - DT / 4)
+                d_off = classes[kind](stock, **kw_off)
+                try:
+                    pf_off = d_off.payoff_fn()
+                except Exception as e:
+                    ctx.violation(f"payoff:{kind}:class-raises", f"{classes[kind].__name__}.payoff_fn raised {type(e).__name__} for a maturity between grid points", {"T": T, "error": repr(e)[:200]})
+                    pf_off = None
+                if pf_off is not None:
+                    ctx.count(n=len(rs))
+                    bad = ~((pf_off.double() - exp_fn).abs() <= tol * (1 + exp_fn.abs())) if pf_off.shape == exp_fn.shape else torch.ones(1, dtype=torch.bool)
+                    if bool(bad.any()):
+                        i = int(bad.nonzero()[0]) if pf_off.shape == exp_fn.shape else 0
+                        ctx.violation(f"payoff:{kind}:offgrid-maturity", f"{classes[kind].__name__} with a maturity between grid points does not pay on the terminal price of the simulated grid",
+                                      {"path": rs[i]["path"], "maturity": kw_off["maturity"], "dt": DT, "strike": r0["strike"], "start": start,
+                                       "expected": exp_fn[i].item(), "observed": pf_off.flatten()[i].item() if pf_off.numel() > i else None})
             # the same derivative OBJECT with its contract terms changed between payoff() calls (no re-simulation)
             if not ops:
                 key = (kind, T, dtype)
